@@ -246,6 +246,16 @@ class Layouts:
             if lx == ROWS and d is not None and const_number(d) == 0:
                 return ("merged", "C", self.tag(reps) if self.tag(reps) == "N" else "?")
             return ANY
+        if last in ("transpose", "swapaxes") and len(ops) == 3 and sorted(const_number(a) if const_number(a) is not None else 9 for a in ops[1:]) == [0, 1]:
+            lx = self.lead(ops[0])
+            if lx[0] in ("pair", "iidpair"):
+                return (lx[0], lx[2], lx[1])
+            return ANY
+        if last == "permute" and len(ops) >= 3 and [const_number(a) for a in ops[1:3]] == [1, 0]:
+            lx = self.lead(ops[0])
+            if lx[0] in ("pair", "iidpair"):
+                return (lx[0], lx[2], lx[1])
+            return ANY
         if last == "unsqueeze" and is_method and len(ops) == 2 and const_number(ops[1]) == 1:
             if self.lead(ops[0]) == ROWS:
                 return ("pair", "C", "1")
@@ -291,6 +301,12 @@ class Layouts:
                 t0, t1 = self.tag(sizes[0]), self.tag(sizes[1])
                 if {t0, t1} & {"C", "N"}:
                     return self._split(lx, t0, t1, c)
+            if lx[0] == "pair" and len(sizes) >= 2 and {lx[1], lx[2]} == {"C", "N"}:
+                t0, t1 = self.tag(sizes[0]), self.tag(sizes[1])
+                if {t0, t1} == {"C", "N"}:
+                    if (t0, t1) != (lx[1], lx[2]):
+                        self.conflict(c, "a tensor with the leading axes (%s, %s) is reshaped to (%s, %s, ...): a reshape re-reads the same memory order, it does not swap the axes (a transpose is needed), so the samples of one context row are spread over all rows" % (lx[1], lx[2], t0, t1))
+                    return ("pair", t0, t1)
             if lx[0] in ("pair", "iidpair") and sizes and self.tag(sizes[0]) in ("CN", "?"):
                 return ("merged", lx[1], lx[2]) if lx[0] == "pair" else IID
             return ANY
